@@ -1,5 +1,6 @@
 import TinyFlux.Mirror.Search
 import TinyFlux.Mirror.Ops
+import TinyFlux.Mirror.Reads
 /-!
 # C01 over the translated source: the leaf searches of `tinyflux/index.py`
 
@@ -37,5 +38,25 @@ example : ∃ g' r r', IndexImpl.build (IndexImpl.__init__ true)
        { time := 3, meas := "b", tags := [("k", some "w")], fields := [("f", none)] }]
   obtain ⟨r, r', a, b, c⟩ := translated_search_tags g' h2 "k" (.cmp .eq (.str "v"))
   exact ⟨g', r, r', h1, a, b, c⟩
+
+/-- `TinyFlux.count` of database.py as translated (`Generated/DatabaseImpl.lean`): on every state it returns what the Model's
+    `step` computes for `.count` (index path: the number of positions `Index.search` returns; scan path: the number of rows that
+    pass the measurement filter and the query), errors included -/
+theorem translated_count (norm : Point → Point) (g : DSelf) (q : Query) (m : Option String) :
+    DatabaseImpl.count modelExt g q m = liftE (modelCount (absDB norm g) q m) :=
+  count_ok norm g q m
+
+/-- `TinyFlux.contains` as translated (it leaves its scan loop at the first match) -/
+theorem translated_contains (norm : Point → Point) (g : DSelf) (q : Query) (m : Option String) (b : Bool)
+    (h : modelContains (absDB norm g) q m = .ok b) :
+    DatabaseImpl.contains modelExt g q m = .ok b :=
+  contains_ok norm g q m b h
+
+/-- `modelCount` / `modelContains` are what `State.step` answers -/
+theorem model_count_is_step (s : State) (q : Query) (m : Option String) :
+    (s.step (.count q m)).2 = State.outOf (modelCount s.readOp q m) (fun n => .nat n)
+    ∧ (s.step (.contains q m)).2 = State.outOf (modelContains s.readOp q m) (fun b => .bool b) := by
+  constructor <;> simp only [State.step, modelCount, modelContains] <;> split <;>
+    (simp only [State.outOf, Except.map]; split <;> simp_all)
 
 end TinyFlux.Props.C01
